@@ -36,6 +36,7 @@ package ecdsa
 //@ func (*PreSignature).SignatureShare
 //@   nopanic[C05]
 //@   requires sig != nil && sig.R != nil && sig.KShare != nil && sig.ChiShare != nil
+//@   modifies nothing
 //@   allocates
 //@   ensures[C01] result != nil && fresh(result) && scval(result) == s_add(s_mul(fromhash(bval(hash)), old(scval(sig.KShare))), s_mul(xcoord(old(ptval(sig.R))), old(scval(sig.ChiShare))))
 //@   ensures[C01,C11] scval(sig.KShare) == old(scval(sig.KShare)) && scval(sig.ChiShare) == old(scval(sig.ChiShare)) && ptval(sig.R) == old(ptval(sig.R))
